@@ -13,6 +13,10 @@ pub struct Case {
     pub queries: Vec<Query>,
     pub vec_queries: Vec<u32>,
     pub doctor: (bool, bool, bool),
+    /// no document is embedded; the vector index is enabled explicitly (enable_vec + commit), so it
+    /// exists with zero vectors
+    #[serde(default)]
+    pub empty_vec_index: bool,
 }
 
 type Hit = (u64, usize, usize, String, Option<f32>);
@@ -129,7 +133,10 @@ fn compare(c: &Case, live: &Answers, other: &Answers, who: &str, exact: bool) ->
                 }
             }
             (Err(_), Err(_)) => true,
-            (Err(_), Ok(y)) | (Ok(y), Err(_)) => y.is_empty(),
+            // a live handle that refuses ("not enabled") may be followed by an empty answer of a
+            // persisted one, but an answer the live handle gave must not turn into an error
+            (Err(_), Ok(y)) => y.is_empty(),
+            (Ok(_), Err(_)) => false,
         };
         if !same {
             return Err(Fail::new(format!("C28:vec-differs-{who}"), format!("search_vec (query seed {}): live {:?} vs {who} {:?}", c.vec_queries[i], a, b)));
@@ -144,6 +151,11 @@ pub fn check(c: &Case) -> CheckResult {
         Err(f) if f.key.starts_with("abort:") => return Ok(CaseInfo::trivial().class("aborted_on_ingest_error")),
         Err(f) => return Err(f),
     };
+    if c.empty_vec_index {
+        if b.mem.enable_vec().is_err() || b.mem.commit().is_err() {
+            return Ok(CaseInfo::trivial().class("aborted_on_ingest_error"));
+        }
+    }
     let live = answers(&mut b.mem, c);
     let n_hits: usize = live.search.iter().filter_map(|r| r.as_ref().ok()).map(|r| r.1.len()).sum();
     let chunked = corpus::all_frames(&b.mem).iter().any(|f| f.chunk_manifest.is_some());
@@ -181,16 +193,17 @@ pub fn check(c: &Case) -> CheckResult {
         .class_if(chunked, "has_chunked_document")
         .class_if(!c.corpus.deletes.is_empty(), "has_deletes")
         .class_if(commits >= 2, "several_commits")
+        .class_if(c.empty_vec_index, "vector_index_enabled_but_empty")
         .class_if(c.corpus.docs.iter().any(|d| d.emb.is_some()), "has_embeddings"))
 }
 
 pub fn build(ctx: &Ctx) -> Vec<Box<dyn Arm>> {
-    ctx.rule("C10 corpora (chunked and unchunked documents, scopes, tracks, tags, timestamps, deletes, intermediate commits, instant index on/off, a third of the documents embedded) and 8..14 C10 query expressions (words, phrases, field terms, date ranges, AND/OR/NOT; uri/scope filters; top_k 0..50; sketch pre-filter on/off) + 4 timeline queries + 2 vector queries, answered by (1) the live handle after the final commit, (2) a handle reopened read-write, (3) a read-only handle, (4) a copy after doctor with generated rebuild flags; oracle: (2) and (3) give exactly the live answers (total_hits, hit sequence, ranges, texts, scores within 1e-5 relative; timeline; vector ids and distance bits); (4) gives the same hit sets when the response is not truncated by top_k, the same timeline and the same vector answers; non-trivial = >= 2 commits, a delete and a chunked document. The second sentence of the property (hits of searches between a put and its commit contain the query) is decided by C10's before-commit phase");
+    ctx.rule("C10 corpora (chunked and unchunked documents, scopes, tracks, tags, timestamps, deletes, intermediate commits, instant index on/off, a third of the documents embedded, or none and the vector index enabled explicitly so that it exists empty) and 8..14 C10 query expressions (words, phrases, field terms, date ranges, AND/OR/NOT; uri/scope filters; top_k 0..50; sketch pre-filter on/off) + 4 timeline queries + 2 vector queries, answered by (1) the live handle after the final commit, (2) a handle reopened read-write, (3) a read-only handle, (4) a copy after doctor with generated rebuild flags; oracle: (2) and (3) give exactly the live answers (total_hits, hit sequence, ranges, texts, scores within 1e-5 relative; timeline; vector ids and distance bits); (4) gives the same hit sets when the response is not truncated by top_k, the same timeline and the same vector answers; non-trivial = >= 2 commits, a delete and a chunked document. The second sentence of the property (hits of searches between a put and its commit contain the query) is decided by C10's before-commit phase");
     ctx.assume("after a doctor rebuild BM25 statistics no longer include tombstoned documents, so scores and tie order may legitimately change: sets are compared there");
     let t = ctx.tier;
     vec![arm_with(
         "four_handles",
-        t.pick(60, 1000),
+        t.pick(160, 2000),
         8,
         t.pick(50, 150),
         move || {
@@ -199,15 +212,14 @@ pub fn build(ctx: &Ctx) -> Vec<Box<dyn Arm>> {
                 prop::collection::vec(c10::query(), 8..=14),
                 prop::collection::vec(any::<u32>(), 2),
                 (any::<bool>(), any::<bool>(), any::<bool>()),
+                prop::bool::weighted(0.15),
             )
-                .prop_map(|(mut corpus, queries, vec_queries, doctor)| {
+                .prop_map(|(mut corpus, queries, vec_queries, doctor, empty_vec_index)| {
                     corpus.dim = 4;
                     for d in corpus.docs.iter_mut() {
-                        if d.seed % 3 == 0 {
-                            d.emb = Some(d.seed);
-                        }
+                        d.emb = if d.seed % 3 == 0 && !empty_vec_index { Some(d.seed) } else { None };
                     }
-                    Case { corpus, queries, vec_queries, doctor }
+                    Case { corpus, queries, vec_queries, doctor, empty_vec_index }
                 })
         },
         check,
